@@ -445,7 +445,7 @@ def shard_main(ctx):
         return
     if not ctx.explore("gates", gate_file_cases(), run_case, ctx.n(40, 1500)):
         return
-    ctx.explore("pipeline", pipeline_cases(), run_case, ctx.n(50, 900))
+    ctx.explore("pipeline", pipeline_cases(), run_case, ctx.n(100, 1200))
 
 
 def replay(case, ctx):
